@@ -20,14 +20,11 @@ func init() {
 		{Pkg: "os", Func: "prefixAndSuffix"},
 		{Pkg: "path/filepath", Func: "Join", Oracle: true},
 		{Pkg: "os", Func: "ReadFile", Oracle: true},
-		{Pkg: "os", Func: "MkdirAll", Oracle: true},
 		{Pkg: "encoding/json", Func: "Marshal", Oracle: true},
 		{Pkg: "encoding/json", Func: "Unmarshal", Oracle: true, OutParams: []string{"v"}},
 		{Pkg: "crypto/x509", Func: "ParseRevocationList", Oracle: true},
 		{Pkg: "time", Func: "Now", Oracle: true},
-		{Pkg: "io/fs", Func: "errNotExist", Oracle: true},
 		{Pkg: ".../verifier/crl", Func: "checkExpiry"},
-		{Pkg: ".../verifier/crl", Func: "NewFileCache"},
 		{Pkg: ".../verifier/crl", Func: "(*FileCache).Set"},
 		{Pkg: ".../verifier/crl", Func: "(*FileCache).Get", NilIsEmpty: true},
 	})
